@@ -1516,6 +1516,274 @@ def r10b_if_continue(toks, counts):
     return toks
 
 
+# ---- R10c: remaining `continue`s (nested in if / if-let / match / let-else, not in tail position) -> a skip flag --------------------
+
+BLOCKLIKE = ('if', 'match', 'for', 'while', 'loop', 'unsafe')
+
+
+def _stmts(toks, a, b):
+    """top-level statements of the block interior toks[a:b]: list of (start, end_exclusive)"""
+    out = []
+    j = a
+    while j < b:
+        if toks[j][0] in TRIVIA:
+            j += 1
+            continue
+        s = j
+        first = toks[j]
+        blocklike = (first[0] == 'id' and first[1] in BLOCKLIKE) or is_p(first, '{') or first[0] == 'life'
+        k = j
+        end = None
+        while k < b:
+            t = toks[k]
+            if t[0] == 'p' and t[1] in rtok.OPEN:
+                c = match_close(toks, k)
+                if is_p(t, '{') and blocklike:
+                    nx = next_sig(toks, c + 1)
+                    if nx < b and is_id(toks[nx], 'else'):
+                        k = nx + 1
+                        continue
+                    if nx + 1 < b and is_p(toks[nx], '=') and not (toks[nx + 1][0] == 'p' and toks[nx + 1][1] in '=>'):
+                        # the braces of a struct pattern in `if let P { .. } = E {`
+                        k = nx + 1
+                        continue
+                    if nx < b and is_p(toks[nx], ';'):
+                        end = nx + 1
+                    elif nx < b and (is_p(toks[nx], '.') or is_p(toks[nx], '?')):
+                        blocklike = False
+                        k = c + 1
+                        continue
+                    else:
+                        end = c + 1
+                    break
+                k = c + 1
+                continue
+            if is_p(t, ';'):
+                end = k + 1
+                break
+            k += 1
+        if end is None:
+            end = b
+            while end > s and toks[end - 1][0] in TRIVIA:
+                end -= 1
+        out.append((s, end))
+        j = end
+    return out
+
+
+def _has_continue(toks, a, b):
+    """a `continue` of *this* loop in toks[a:b] (those of nested loops do not count); labelled continue -> error"""
+    j = a
+    while j < b:
+        t = toks[j]
+        if t[0] == 'id' and t[1] in ('for', 'while', 'loop'):
+            k = j + 1
+            while k < b and not is_p(toks[k], '{'):
+                if toks[k][0] == 'p' and toks[k][1] in '([':
+                    k = match_close(toks, k)
+                k += 1
+            if k < b:
+                j = match_close(toks, k) + 1
+                continue
+        if is_id(t, 'continue'):
+            nx = next_sig(toks, j + 1)
+            if nx < len(toks) and toks[nx][0] == 'life':
+                raise ExtractError('labelled continue')
+            return True
+        j += 1
+    return False
+
+
+def _indent_more(ts, extra='    '):
+    return [(x[0], x[1] + extra) if (x[0] == 'ws' and '\n' in x[1]) else x for x in ts]
+
+
+def _r10c_block(toks, a, b, flag, ind):
+    """rewrite the block interior toks[a:b]; returns the new interior tokens (no `continue` of this loop left)"""
+    out = []
+    stmts = _stmts(toks, a, b)
+    pos = a
+    for idx, (s, e) in enumerate(stmts):
+        if not _has_continue(toks, s, e):
+            out += toks[pos:e]
+            pos = e
+            continue
+        out += toks[pos:s]
+        first = toks[s]
+        sind = _line_indent(toks, s)
+        rest_a = e
+        if is_id(first, 'continue'):
+            out += rtok.tokenize('%s = true;' % flag)
+            # everything after it in this block is unreachable
+            ws_tail = []
+            q = b
+            while q > e and toks[q - 1][0] == 'ws':
+                q -= 1
+            return out + toks[q:b]
+        if is_id(first, 'if') or is_p(first, '{'):
+            out += _r10c_branches(toks, s, e, flag)
+        elif is_id(first, 'match'):
+            out += _r10c_match(toks, s, e, flag)
+        elif is_id(first, 'let'):
+            out += None or _r10c_let_else(toks, s, e, b, flag, sind)
+            # let-else swallows the rest of the block
+            q = b
+            while q > e and toks[q - 1][0] == 'ws':
+                q -= 1
+            return out + toks[q:b]
+        else:
+            raise ExtractError('continue in an unsupported position')
+        # the rest of the block runs only when no continue was taken
+        q = b
+        while q > rest_a and toks[q - 1][0] == 'ws':
+            q -= 1
+        rest_sig = [x for x in toks[rest_a:q] if x[0] not in TRIVIA]
+        if rest_sig:
+            inner = _r10c_block(toks, rest_a, q, flag, ind)
+            while inner and inner[0][0] == 'ws':
+                inner.pop(0)
+            out += [('ws', '\n' + sind)] + rtok.tokenize('if !%s {' % flag) + [('ws', '\n' + sind + '    ')] + _indent_more(inner) \
+                + [('ws', '\n' + sind), ('p', '}')]
+        return out + toks[q:b]
+    out += toks[pos:b]
+    return out
+
+
+def _r10c_branches(toks, s, e, flag):
+    """an if / else-if / else chain or a bare block: rewrite every branch block"""
+    out = []
+    j = s
+    while j < e:
+        t = toks[j]
+        if is_p(t, '{'):
+            c = match_close(toks, j)
+            out.append(t)
+            out += _r10c_block(toks, j + 1, c, flag, '')
+            out.append(toks[c])
+            j = c + 1
+            continue
+        if t[0] == 'p' and t[1] in '([':
+            c = match_close(toks, j)
+            out += toks[j:c + 1]
+            j = c + 1
+            continue
+        out.append(t)
+        j += 1
+    return out
+
+
+def _r10c_match(toks, s, e, flag):
+    # find the match body
+    k = s + 1
+    while k < e and not is_p(toks[k], '{'):
+        if toks[k][0] == 'p' and toks[k][1] in '([':
+            k = match_close(toks, k)
+        k += 1
+    if k >= e:
+        raise ExtractError('match without a body')
+    c = match_close(toks, k)
+    out = toks[s:k + 1]
+    j = k + 1
+    while j < c:
+        # pattern up to `=>` at depth 0
+        a0 = j
+        while j < c and not (is_p(toks[j], '=') and j + 1 < c and is_p(toks[j + 1], '>')):
+            if toks[j][0] == 'p' and toks[j][1] in rtok.OPEN:
+                j = match_close(toks, j)
+            j += 1
+        if j >= c:
+            out += toks[a0:c]
+            break
+        out += toks[a0:j + 2]
+        j += 2
+        b0 = next_sig(toks, j)
+        out += toks[j:b0]
+        if is_p(toks[b0], '{'):
+            bc = match_close(toks, b0)
+            out.append(toks[b0])
+            out += _r10c_block(toks, b0 + 1, bc, flag, '')
+            out.append(toks[bc])
+            j = bc + 1
+        else:
+            # expression arm up to `,` at depth 0
+            q = b0
+            while q < c and not is_p(toks[q], ','):
+                if toks[q][0] == 'p' and toks[q][1] in rtok.OPEN:
+                    q = match_close(toks, q)
+                q += 1
+            arm = [x for x in toks[b0:q] if x[0] not in TRIVIA]
+            if len(arm) == 1 and is_id(arm[0], 'continue'):
+                out += rtok.tokenize('{ %s = true; }' % flag)
+            elif _has_continue(toks, b0, q):
+                raise ExtractError('continue inside a match arm expression')
+            else:
+                out += toks[b0:q]
+            j = q
+    out += toks[c:e]
+    return out
+
+
+def _r10c_let_else(toks, s, e, b, flag, sind):
+    """`let P = E else { S; continue; }; REST` -> `if let P = E { REST } else { S; FLAG = true; }`"""
+    k = s + 1
+    else_at = None
+    while k < e:
+        if toks[k][0] == 'p' and toks[k][1] in rtok.OPEN:
+            k = match_close(toks, k)
+        elif is_id(toks[k], 'else'):
+            else_at = k
+            break
+        k += 1
+    if else_at is None:
+        raise ExtractError('continue in an unsupported position (let)')
+    bo = next_sig(toks, else_at + 1)
+    bc = match_close(toks, bo)
+    head = toks[s + 1:else_at]
+    while head and head[-1][0] == 'ws':
+        head.pop()
+    else_body = _r10c_block(toks, bo + 1, bc, flag, '')
+    q = b
+    while q > e and toks[q - 1][0] == 'ws':
+        q -= 1
+    rest = _r10c_block(toks, e, q, flag, '')
+    while rest and rest[0][0] == 'ws':
+        rest.pop(0)
+    return [('id', 'if'), ('ws', ' '), ('id', 'let')] + head + [('ws', ' '), ('p', '{'), ('ws', '\n' + sind + '    ')] + _indent_more(rest) \
+        + [('ws', '\n' + sind), ('p', '}'), ('ws', ' '), ('id', 'else'), ('ws', ' '), ('p', '{')] + else_body + [('p', '}')]
+
+
+def r10c_continue_flag(toks, counts):
+    """what R10b leaves: a `continue` nested in if / if-let / match arms / let-else inside a `for` body, with code after it.
+    The body gets `let mut skip_N = false;`, each such `continue;` becomes `skip_N = true;` and the statements that would have been
+    skipped are wrapped in `if !skip_N { .. }` (at every nesting level between the continue and the loop body)."""
+    serial = 0
+    i = 0
+    while i < len(toks):
+        if is_id(toks[i], 'for'):
+            k = i + 1
+            saw_in = False
+            while k < len(toks) and not is_p(toks[k], '{'):
+                if toks[k][0] == 'p' and toks[k][1] in '([':
+                    k = match_close(toks, k)
+                if is_id(toks[k], 'in'):
+                    saw_in = True
+                k += 1
+            if saw_in and k < len(toks):
+                c = match_close(toks, k)
+                try:
+                    if _has_continue(toks, k + 1, c):
+                        serial += 1
+                        flag = 'skip_%d' % serial
+                        inner = _r10c_block(toks, k + 1, c, flag, '')
+                        ind = _line_indent(toks, i) + '    '
+                        toks = toks[:k + 1] + [('ws', '\n' + ind)] + rtok.tokenize('let mut %s = false;' % flag) + inner + toks[c:]
+                        counts['R10c'] = counts.get('R10c', 0) + 1
+                except ExtractError:
+                    pass
+        i += 1
+    return toks
+
+
 def r20_rposition(toks, counts, type_name):
     """`E.iter().enumerate().rev().find(|(_, X)| X.M()).map(|(I, _)| I)` -> `rposition_by(&E, TYPE::M)`:
     the index of the last element satisfying the method predicate M (TYPE is given by the region option R20=TYPE)"""
@@ -1654,6 +1922,250 @@ def r9_enumerate(toks, counts):
     return toks
 
 
+R26_SOURCES = ('iter', 'into_iter', 'keys', 'values')
+R26_ADAPTERS = ('filter', 'map', 'filter_map', 'copied', 'cloned')
+R26_TERMINALS = ('collect', 'count')
+
+
+def _flat(toks):
+    """token text with comments removed and line breaks collapsed (method chains need no spaces)"""
+    out = []
+    for t in toks:
+        if t[0] in ('lc', 'bc'):
+            continue
+        if t[0] == 'ws':
+            out.append('' if '\n' in t[1] else t[1])
+        else:
+            out.append(t[1])
+    return ''.join(out).strip()
+
+
+def _parse_closure(arg):
+    """arg: tokens between the parentheses of an adapter call; returns (pattern_text, body_tokens) or None"""
+    k = next_sig(arg, 0)
+    if k < len(arg) and is_id(arg[k], 'move'):
+        k = next_sig(arg, k + 1)
+    if k >= len(arg) or not is_p(arg[k], '|'):
+        return None
+    j = k + 1
+    while j < len(arg):
+        if arg[j][0] == 'p' and arg[j][1] in '([':
+            j = match_close(arg, j)
+        elif is_p(arg[j], '|'):
+            break
+        j += 1
+    if j >= len(arg):
+        return None
+    pat = _flat(arg[k + 1:j])
+    body = arg[j + 1:]
+    # a `return` or `?` inside the closure leaves the closure, not the enclosing function: not expressible after inlining
+    for t in body:
+        if is_id(t, 'return') or is_p(t, '?'):
+            return None
+    if ':' in pat and '::' not in pat:
+        return None   # typed closure parameter: keep it simple
+    return pat, body
+
+
+def _body_text(body, indent):
+    """the closure body as an expression, re-indented relative to `indent` (multi-line blocks keep their line structure)"""
+    txt = ''.join(t[1] for t in body if t[0] not in ('lc', 'bc')).strip()
+    lines = txt.split('\n')
+    if len(lines) == 1:
+        return txt
+    rest = lines[1:]
+    strip = min((len(l) - len(l.lstrip()) for l in rest if l.strip()), default=0)
+    # the closing line of a block body is the least indented one; align it with `indent`
+    return '\n'.join([lines[0]] + [indent + l[strip:] if l.strip() else l for l in rest])
+
+
+def r26_iter_chains(toks, counts):
+    """`E.iter().filter(|P| C).map(|Q| F).collect()` (sources iter/into_iter/keys/values; adapters filter, map, filter_map, copied,
+    cloned; terminals collect, count) becomes a block with an explicit loop:
+        { let mut itN_acc = Vec::new(); for itN_x in E.iter() { let P = &itN_x; let itN_c = C; if itN_c { let Q = itN_x; let itN_y = F;
+          itN_acc.push(itN_y); } } itN_acc }
+    The closure parameters and bodies are the source's own tokens; evaluation order and the number of closure calls per element are
+    those of the lazy adapters. Chains with any other adapter, with closures that `return`/`?`, or without a terminal are left alone."""
+    out = []
+    i = 0
+    n = len(toks)
+    serial = 0
+    while i < n:
+        t = toks[i]
+        done = False
+        if is_p(t, '.'):
+            nx = next_sig(toks, i + 1)
+            if nx < n and toks[nx][0] == 'id' and toks[nx][1] in R26_SOURCES:
+                op = next_sig(toks, nx + 1)
+                if op < n and is_p(toks[op], '(') and all(x[0] in TRIVIA for x in toks[op + 1:match_close(toks, op)]):
+                    src_end = match_close(toks, op)
+                    stages = []
+                    j = src_end + 1
+                    ok = True
+                    while True:
+                        d = next_sig(toks, j)
+                        if d >= n or not is_p(toks[d], '.'):
+                            break
+                        nm = next_sig(toks, d + 1)
+                        if nm >= n or toks[nm][0] != 'id' or toks[nm][1] not in R26_ADAPTERS + R26_TERMINALS:
+                            break
+                        a = next_sig(toks, nm + 1)
+                        turbofish = None
+                        if a + 2 < n and is_p(toks[a], ':') and is_p(toks[a + 1], ':') and is_p(toks[a + 2], '<'):
+                            depth = 0
+                            k = a + 2
+                            while k < n:
+                                if is_p(toks[k], '<'):
+                                    depth += 1
+                                elif is_p(toks[k], '>'):
+                                    depth -= 1
+                                    if depth == 0:
+                                        break
+                                k += 1
+                            turbofish = _flat(toks[a + 3:k])
+                            a = next_sig(toks, k + 1)
+                        if a >= n or not is_p(toks[a], '('):
+                            break
+                        cl = match_close(toks, a)
+                        stages.append((toks[nm][1], toks[a + 1:cl], turbofish))
+                        j = cl + 1
+                        if toks[nm][1] in R26_TERMINALS:
+                            break
+                    if stages and stages[-1][0] in R26_TERMINALS:
+                        parsed = []
+                        for (name, arg, tf) in stages:
+                            if name in ('filter', 'map', 'filter_map'):
+                                c = _parse_closure(arg)
+                                if c is None:
+                                    ok = False
+                                    break
+                                parsed.append((name, c[0], c[1], tf))
+                            else:
+                                if not all(x[0] in TRIVIA for x in arg):
+                                    ok = False
+                                    break
+                                parsed.append((name, None, None, tf))
+                        # target collection of collect()
+                        target = 'Vec'
+                        if ok and parsed[-1][0] == 'collect':
+                            tf = parsed[-1][3]
+                            ty = None
+                            if tf:
+                                ty = tf
+                            else:
+                                # `let NAME: TYPE = <chain>` -- find the annotation of the enclosing let, if the chain is its initializer
+                                end = len(out) - 1
+                                try:
+                                    start = _postfix_start(out, end)
+                                except ExtractError:
+                                    start = None
+                                if start is not None:
+                                    e = prev_sig(out, start - 1)
+                                    if e >= 0 and is_p(out[e], '='):
+                                        k = e - 1
+                                        ann = []
+                                        while k >= 0 and not is_id(out[k], 'let') and not (out[k][0] == 'p' and out[k][1] in ';{}'):
+                                            ann.append(out[k])
+                                            k -= 1
+                                        if k >= 0 and is_id(out[k], 'let'):
+                                            txt = _flat(list(reversed(ann)))
+                                            if ':' in txt:
+                                                ty = txt.split(':', 1)[1].strip()
+                            if ty:
+                                head = re.match(r'(?:std::collections::)?(\w+)', ty)
+                                target = head.group(1) if head else None
+                            if target not in ('Vec', 'HashSet', 'HashMap'):
+                                ok = False
+                        if ok:
+                            try:
+                                end = len(out) - 1
+                                start = _postfix_start(out, end)
+                            except ExtractError:
+                                ok = False
+                        if ok:
+                            serial += 1
+                            P = 'it%d_' % serial
+                            recv_toks = out[start:]
+                            recv = _flat(recv_toks)
+                            ind0 = _line_indent(out, start) if start < len(out) else ''
+                            # indentation of the line the chain starts on
+                            k = start
+                            line_start = start
+                            while line_start > 0 and not (out[line_start - 1][0] == 'ws' and '\n' in out[line_start - 1][1]):
+                                line_start -= 1
+                            ind0 = ''
+                            if line_start > 0:
+                                ind0 = out[line_start - 1][1].rsplit('\n', 1)[1]
+                            elif out and out[0][0] == 'ws':
+                                ind0 = out[0][1].rsplit('\n', 1)[-1]
+                            I1 = ind0 + '    '
+                            lines = ['{']
+                            term = parsed[-1][0]
+                            if term == 'count':
+                                lines.append(I1 + 'let mut %sacc: usize = 0;' % P)
+                            else:
+                                lines.append(I1 + 'let mut %sacc = %s::new();' % (P, target))
+                            lines.append(I1 + 'for %sx in %s.%s() {' % (P, recv, toks[nx][1]))
+                            depth_ind = I1 + '    '
+                            cur = P + 'x'
+                            closers = []
+                            ycount = 0
+                            for (name, pat, body, tf) in parsed[:-1]:
+                                if name == 'filter':
+                                    lines.append(depth_ind + 'let %s = &%s;' % (pat, cur))
+                                    lines.append(depth_ind + 'let %sc%d = %s;' % (P, len(closers), _body_text(body, depth_ind)))
+                                    lines.append(depth_ind + 'if %sc%d {' % (P, len(closers)))
+                                    closers.append(depth_ind + '}')
+                                    depth_ind += '    '
+                                elif name == 'map':
+                                    ycount += 1
+                                    nxt = '%sy%d' % (P, ycount)
+                                    lines.append(depth_ind + 'let %s = %s;' % (pat, cur))
+                                    lines.append(depth_ind + 'let %s = %s;' % (nxt, _body_text(body, depth_ind)))
+                                    cur = nxt
+                                elif name == 'filter_map':
+                                    ycount += 1
+                                    nxt = '%sy%d' % (P, ycount)
+                                    lines.append(depth_ind + 'let %s = %s;' % (pat, cur))
+                                    lines.append(depth_ind + 'let %so%d = %s;' % (P, ycount, _body_text(body, depth_ind)))
+                                    lines.append(depth_ind + 'if let Some(%s) = %so%d {' % (nxt, P, ycount))
+                                    closers.append(depth_ind + '}')
+                                    depth_ind += '    '
+                                    cur = nxt
+                                elif name == 'copied':
+                                    ycount += 1
+                                    nxt = '%sy%d' % (P, ycount)
+                                    lines.append(depth_ind + 'let %s = *%s;' % (nxt, cur))
+                                    cur = nxt
+                                elif name == 'cloned':
+                                    ycount += 1
+                                    nxt = '%sy%d' % (P, ycount)
+                                    lines.append(depth_ind + 'let %s = %s.clone();' % (nxt, cur))
+                                    cur = nxt
+                            if term == 'count':
+                                lines.append(depth_ind + '%sacc += 1;' % P)
+                            elif target == 'Vec':
+                                lines.append(depth_ind + '%sacc.push(%s);' % (P, cur))
+                            elif target == 'HashSet':
+                                lines.append(depth_ind + '%sacc.insert(%s);' % (P, cur))
+                            else:
+                                lines.append(depth_ind + '%sacc.insert(%s.0, %s.1);' % (P, cur, cur))
+                            for c in reversed(closers):
+                                lines.append(c)
+                            lines.append(I1 + '}')
+                            lines.append(I1 + '%sacc' % P)
+                            lines.append(ind0 + '}')
+                            del out[start:]
+                            out.extend(rtok.tokenize('\n'.join(lines)))
+                            counts['R26'] = counts.get('R26', 0) + 1
+                            i = j
+                            done = True
+        if not done:
+            out.append(t)
+            i += 1
+    return out
+
+
 def cleanup_lines(text):
     lines = [l.rstrip() for l in text.split('\n')]
     return [l for l in lines if l.strip() != '']
@@ -1712,8 +2224,11 @@ def extract_region(src_text, path, opts=None):
             if 'R24' in opts.get('rules', ()):
                 item = r24_name_tail_expr(item, counts)
             item = r21_map_err_anyhow(item, counts)
+            if 'R26' not in opts.get('skip', ()):
+                item = r26_iter_chains(item, counts)
             item = r25_vec_extend(item, counts)
             item = r10b_if_continue(item, counts)
+            item = r10c_continue_flag(item, counts)
             item = r13_binders(item, counts)
     if 'R10' in opts.get('rules', ()):
         item = r10_trailing_continue(item, counts)
